@@ -193,7 +193,15 @@ where
             ret = async {pipe_fn.read().await}, if have_rawfd => {
                 let len = ret.with_context(|| format!("pipe_read from {}", src.name))?;
                 if len > 0 {
-                    pipe_fn.write(len >= params.buffer_size).await.with_context(|| format!("pipe_write to {}", dst.name))?;
+                    // one splice into the socket may move less than what was put into the pipe
+                    let mut pending = len;
+                    while pending > 0 {
+                        let n = pipe_fn.write(pending >= params.buffer_size).await.with_context(|| format!("pipe_write to {}", dst.name))?;
+                        if n == 0 {
+                            return Err(err_msg(format!("pipe_write to {}: wrote zero bytes", dst.name)));
+                        }
+                        pending = pending.saturating_sub(n);
+                    }
                     stat.incr_sent_bytes(len);
                     #[cfg(feature = "metrics")]
                     counter.inc_by(len as u64);
